@@ -10,10 +10,10 @@ def crossed_rehash(cid, lines, ri):
         return None
     return ("|".join(lines))   # distinct script that crossed at least one rehash
 
-RULE = ("seeded op scripts (insert/operator[]=/get+find/remove/iterate/size) over 5 hash functions "
-        "(identity, constant, mod 3, frg::hash<uint64_t>, high bits) and key spaces 8..2^40, biased to "
+RULE = ("seeded op scripts (insert/operator[]=/get+find/remove/iterate/size) over 5 hash functions returning 64-bit values "
+        "(identity, constant, mod 3, frg::hash<uint64_t>, k>>28; the first and last exceed 2^32) and key spaces 8..2^40 plus 2^32, 2^63, 2^64-1, biased to "
         "cross rehash thresholds; non-trivial = distinct script with more than 10 insertions (>= 1 rehash beyond the first)")
-TRUSTED = ["extraction: ExtrOcamlBasic only; OCaml 4.13.1; comp/hashmap/driver.ml",
+TRUSTED = ["extraction: ExtrOcamlBasic only; OCaml 4.13.1; comp/hashmap/driver.ml (hash functions re-implemented in OCaml)",
            "correspondence harness comp/hashmap/harness.cpp (g++ -fsanitize=address,undefined, -fno-access-control)",
            "oracle: std::unordered_map, lifetime/allocation registries in lib/vharness.hpp",
            "modelled, not verified: chain pointers as lists, placement new/destroy (checked by the registries)"]
@@ -39,7 +39,24 @@ def run(c):
             cases += gen.exhaustive_small(4)
     for _, ls in cases:
         c.count("hashmap_ops", len(ls)); c.count("hashmap_hash_kind_" + ls[0].split()[-1])
+    # the model is parametric in sizeof(chain *) and sizeof(chain); measure them on the real code
+    rc, so, _ = vlib.sh([har, "--sizes"], timeout=60)
+    sizes = so.split()
+    if rc != 0 or len(sizes) != 2:
+        c.broken.append("hashmap harness --sizes failed")
+        return False
+    c.extra["hashmap_sizeof_chain_ptr"], c.extra["hashmap_sizeof_chain"] = int(sizes[0]), int(sizes[1])
     impl = vlib.run_cases(har, cases)
-    model = vlib.run_cases(drv, cases) if okd else {}
+    model = vlib.run_cases(drv, cases, args=sizes) if okd else {}
+    if not c.pid.startswith("C16"):
+        # allocator/lifetime event lines ("e ...", "dtor") are the C16 tie; other properties compare the results only
+        for res in (impl, model):
+            for r in res.values():
+                r["lines"] = [l for l in r["lines"] if not (l == "e" or l.startswith("e ") or l == "dtor")]
+    else:
+        for r in impl.values():
+            for l in r["lines"]:
+                if l.startswith("e "):
+                    c.count("hashmap_events", len(l.split()) - 1)
     c.compare(cases, impl, model, crossed_rehash)
     return True
